@@ -386,7 +386,7 @@ func bufferOf(v ssa.Value) ssa.Value {
 
 // ruleC16d: the nested route borrows and hands back the buffer.
 func ruleC16d(c *Ctx) []*report.Result {
-	r := report.NewResult("C16.d", "(*pp).Print/Printf: the caller's mode restoration is deferred first; then newPrinter; the caller's buffer is copied in before doPrint*, copied back after it, the nested printer's buffer and override are cleared, and only then is it freed", 12)
+	r := report.NewResult("C16.d", "(*pp).Print/Printf: the caller's mode restoration is deferred first; then newPrinter; the caller's buffer is copied in before doPrint*, copied back after it, the nested printer's buffer and override are cleared, and only then is it freed (the body of a deferred helper method is read in place, at return)", 12)
 	for name, do := range map[string]string{"Print": "doPrint", "Printf": "doPrintf"} {
 		fn := c.P.Func("internal/rfmt", "(*pp)."+name)
 		construct := "(*internal/rfmt.pp)." + name
@@ -400,64 +400,96 @@ func ruleC16d(c *Ctx) []*report.Result {
 		var steps []string
 		var np ssa.Value
 		recv := ssa.Value(fn.Params[0])
-		order := linearOrder(fn)
-		for _, b := range order {
-			for _, ins := range b.Instrs {
-				switch x := ins.(type) {
-				case *ssa.Defer:
-					steps = append(steps, "defer "+calleeName(x))
-				case *ssa.Call:
-					n := calleeName(x)
-					switch {
-					case n == "internal/rfmt.newPrinter":
-						np = x
-						steps = append(steps, "new")
-					case n == "(*internal/rfmt.pp)."+do:
-						if x.Common().Args[0] == np {
-							steps = append(steps, "print")
-						} else {
-							steps = append(steps, "print-on-other")
-						}
-					case n == "(*internal/rfmt.pp).free":
-						if x.Common().Args[0] == np {
-							steps = append(steps, "free")
-						}
-					}
-				case *ssa.Store:
-					fa, ok := x.Addr.(*ssa.FieldAddr)
-					if !ok {
-						continue
-					}
-					switch fieldName(fa) {
-					case "buf":
-						src := ""
-						if u, ok := x.Val.(*ssa.UnOp); ok {
-							if sfa, ok := u.X.(*ssa.FieldAddr); ok && fieldName(sfa) == "buf" {
-								if sfa.X == recv {
-									src = "caller"
-								} else if sfa.X == np {
-									src = "nested"
+		// subst maps the parameters of a deferred helper to the values it
+		// is called with, so that its body is read as if written in place.
+		type pending struct {
+			callee *ssa.Function
+			subst  map[ssa.Value]ssa.Value
+		}
+		var deferredHelpers []pending
+		var walk func(f *ssa.Function, subst map[ssa.Value]ssa.Value)
+		walk = func(f *ssa.Function, subst map[ssa.Value]ssa.Value) {
+			res := func(v ssa.Value) ssa.Value {
+				if r, ok := subst[v]; ok {
+					return r
+				}
+				return v
+			}
+			for _, b := range linearOrder(f) {
+				for _, ins := range b.Instrs {
+					switch x := ins.(type) {
+					case *ssa.Defer:
+						callee := x.Common().StaticCallee()
+						if callee != nil && recvNamed(callee) == tPP && callee.Blocks != nil && f == fn {
+							m := map[ssa.Value]ssa.Value{}
+							for i, a := range x.Common().Args {
+								if i < len(callee.Params) {
+									m[callee.Params[i]] = res(a)
 								}
 							}
-						} else if cst, ok := x.Val.(*ssa.Const); ok && cst.Value == nil {
-							src = "zero"
+							deferredHelpers = append(deferredHelpers, pending{callee, m})
+							steps = append(steps, "defer helper "+callee.Name())
+							continue
 						}
-						dst := "?"
-						if fa.X == recv {
-							dst = "caller"
-						} else if fa.X == np {
-							dst = "nested"
+						steps = append(steps, "defer "+calleeName(x))
+					case *ssa.Call:
+						n := calleeName(x)
+						switch {
+						case n == "internal/rfmt.newPrinter":
+							np = x
+							steps = append(steps, "new")
+						case n == "(*internal/rfmt.pp)."+do:
+							if res(x.Common().Args[0]) == np {
+								steps = append(steps, "print")
+							} else {
+								steps = append(steps, "print-on-other")
+							}
+						case n == "(*internal/rfmt.pp).free":
+							if res(x.Common().Args[0]) == np {
+								steps = append(steps, "free")
+							}
 						}
-						steps = append(steps, "buf:"+dst+"<-"+src)
-					case "override":
-						if fa.X == np {
-							if cst, ok := x.Val.(*ssa.Const); ok && cst.Value != nil && cst.Int64() == 0 {
-								steps = append(steps, "override:nested<-none")
+					case *ssa.Store:
+						fa, ok := x.Addr.(*ssa.FieldAddr)
+						if !ok {
+							continue
+						}
+						switch fieldName(fa) {
+						case "buf":
+							src := ""
+							if u, ok := x.Val.(*ssa.UnOp); ok {
+								if sfa, ok := u.X.(*ssa.FieldAddr); ok && fieldName(sfa) == "buf" {
+									if res(sfa.X) == recv {
+										src = "caller"
+									} else if res(sfa.X) == np {
+										src = "nested"
+									}
+								}
+							} else if cst, ok := x.Val.(*ssa.Const); ok && cst.Value == nil {
+								src = "zero"
+							}
+							dst := "?"
+							if res(fa.X) == recv {
+								dst = "caller"
+							} else if res(fa.X) == np {
+								dst = "nested"
+							}
+							steps = append(steps, "buf:"+dst+"<-"+src)
+						case "override":
+							if res(fa.X) == np {
+								if cst, ok := x.Val.(*ssa.Const); ok && cst.Value != nil && cst.Int64() == 0 {
+									steps = append(steps, "override:nested<-none")
+								}
 							}
 						}
 					}
 				}
 			}
+		}
+		walk(fn, nil)
+		// deferred helpers run at return, last pushed first
+		for i := len(deferredHelpers) - 1; i >= 0; i-- {
+			walk(deferredHelpers[i].callee, deferredHelpers[i].subst)
 		}
 		got := strings.Join(steps, " ; ")
 		idx := func(s string) int {
